@@ -669,7 +669,7 @@ type evCase struct {
 	Stage    string // stage of the signed checkpoint (replays)
 	State    string // state of the batch when the evidence is submitted
 	Sender   *chain.Account
-	Mode     string // fork | realtx
+	Mode     string        // fork | realtx
 	Conf     *confirmation // the genuine signature the evidence is made of (replays; nil for fabricated signatures)
 	Rel      string        // relation of ChainRef to the chain the signature was made for (crossref.go; "" = decide at judgement)
 }
